@@ -12,6 +12,7 @@ namespace Dawgs.C19.Props
 open Dawgs.C18 Dawgs.C19
 
 set_option linter.unusedSectionVars false
+set_option linter.unusedSimpArgs false
 variable {P : Type} [DecidableEq P]
 
 /-- files that are not temporary: checkpoint, manifest, fragments, foreign files -/
@@ -109,12 +110,74 @@ theorem window_publish_before_record (db : List (Graph P)) (ident : Identity) (h
     resume db ident fs = ⟨(knownTemps ident v).map FsOp.remove, .refused .unexpectedFile⟩ :=
   resume_pub db ident hset v (hg.shape hset) f fs hp
 
-/-- Changed options (driver, graphs, codec, shard, batch — the identity): resume refuses and touches nothing. -/
-theorem resume_refuses_on_identity_change (db : List (Graph P)) (ident : Identity) (fs : FS P) (v : Ckpt P)
+/-- A checkpoint written under another identity: resume refuses and touches nothing. -/
+theorem resume_refuses_on_identity_mismatch (db : List (Graph P)) (ident : Identity) (fs : FS P) (v : Ckpt P)
     (hm : fs.get .manifest = none) (hc : fs.get .ckpt = some (.ckpt v)) (hid : v.identity ≠ ident) :
     resume db ident fs = ⟨[], .refused .identityChanged⟩ := by
   unfold resume
   simp [hm, hc, hid]
+
+/-- The identity binds every bound field of the call, and nothing else: two calls have the same identity
+exactly when they agree on driver, targets (names and order), compression, compression level, scrub mode,
+shard size, batch size and — when scrubbing — salt and scrub configuration. -/
+theorem identity_binds_every_field (a b : Opts) : identityOf a = identityOf b ↔ SameBound a b := by
+  unfold identityOf SameBound
+  constructor
+  · intro h
+    injection h with h1 h2 h3 h4 h5 h6 h7 h8 h9 h10
+    refine ⟨h1, h2, h3, h4, h5, h9, h10, ?_⟩
+    intro hs
+    have hb : b.scrub = true := by rw [← h5]; exact hs
+    rw [hs, hb] at h7 h8
+    simp only [if_true, Option.some.injEq] at h7 h8
+    exact ⟨h8, h7⟩
+  · rintro ⟨h1, h2, h3, h4, h5, h6, h7, h8⟩
+    cases hs : a.scrub with
+    | true =>
+      have hb : b.scrub = true := by rw [← h5]; exact hs
+      obtain ⟨e1, e2⟩ := h8 hs
+      simp [h1, h2, h3, h4, h6, h7, hs, hb, e1, e2]
+    | false =>
+      have hb : b.scrub = false := by rw [← h5]; exact hs
+      simp [h1, h2, h3, h4, h6, h7, hs, hb]
+
+/-- changing any single bound field breaks `SameBound` -/
+theorem changed_field_not_same (a b : Opts)
+    (h : a.driver ≠ b.driver ∨ a.targets ≠ b.targets ∨ a.compression ≠ b.compression ∨ a.zstdLevel ≠ b.zstdLevel ∨
+         a.scrub ≠ b.scrub ∨ a.shardSize ≠ b.shardSize ∨ a.batchSize ≠ b.batchSize ∨
+         (a.scrub = true ∧ (a.salt ≠ b.salt ∨ a.scrubConfig ≠ b.scrubConfig))) : ¬ SameBound a b := by
+  rintro ⟨h1, h2, h3, h4, h5, h6, h7, h8⟩
+  rcases h with h | h | h | h | h | h | h | ⟨hs, h⟩
+  · exact h h1
+  · exact h h2
+  · exact h h3
+  · exact h h4
+  · exact h h5
+  · exact h h6
+  · exact h h7
+  · obtain ⟨e1, e2⟩ := h8 hs
+    rcases h with h | h
+    · exact h e1
+    · exact h e2
+
+/-- Changed options: a dump interrupted under options `o` and resumed under options `o'` that differ in ANY
+bound field (driver, a target or the target order, compression, compression level, scrub mode, shard size,
+batch size, and — when scrubbing — the salt or any part of the scrub configuration) is refused, and nothing
+is touched. -/
+theorem resume_refuses_on_identity_change (db : List (Graph P)) (o o' : Opts) (fs : FS P) (v : Ckpt P)
+    (hm : fs.get .manifest = none) (hc : fs.get .ckpt = some (.ckpt v)) (hv : v.identity = identityOf o)
+    (hdiff : ¬ SameBound o o') :
+    resume db (identityOf o') fs = ⟨[], .refused .identityChanged⟩ := by
+  apply resume_refuses_on_identity_mismatch db _ fs v hm hc
+  rw [hv]
+  intro h
+  exact hdiff ((identity_binds_every_field o o').mp h)
+
+/-- The exempt fields (output directory, force, resume, progress interval, progress callback) do not
+influence resume: calls that agree on the bound fields resume identically. -/
+theorem resume_ignores_exempt_fields (db : List (Graph P)) (o o' : Opts) (fs : FS P) (h : SameBound o o') :
+    resume db (identityOf o') fs = resume db (identityOf o) fs := by
+  rw [(identity_binds_every_field o o').mpr h]
 
 /-- Changed source: if the counts recorded for a completed graph or for the current graph's snapshot differ
 from the source's, resume never succeeds. -/
@@ -184,6 +247,7 @@ def C19_full : Prop :=
     -- a resume never succeeds with changed options, a changed source, or unaccounted files
     (∀ (fs : FS P) (v : Ckpt P), fs.get .ckpt = some (.ckpt v) →
       (v.identity ≠ ident → (resume db ident fs).outcome ≠ .ok) ∧
+      (∀ o o' : Opts, v.identity = identityOf o → ident = identityOf o' → ¬ SameBound o o' → (resume db ident fs).outcome ≠ .ok) ∧
       (sourceOk db v = false → (resume db ident fs).outcome ≠ .ok) ∧
       (∀ q, fs.get q ≠ none → q ≠ .ckpt → q ∉ knownTemps ident v → (∀ f ∈ committed v, FPath.frag f.path ≠ q) →
         (resume db ident fs).outcome ≠ .ok))
@@ -192,12 +256,18 @@ theorem c19_full : C19_full := by
   intro P _ db ident hset
   refine ⟨(no_manifest_before_end db ident).2, fun fs hr => resume_complete_or_refuse db ident hset fs hr, ?_⟩
   intro fs v hc
-  refine ⟨?_, resume_refuses_on_source_count_change db ident fs v hc,
+  have hmis : v.identity ≠ ident → (resume db ident fs).outcome ≠ .ok := by
+    intro hid
+    cases hm : fs.get .manifest with
+    | none => rw [resume_refuses_on_identity_mismatch db ident fs v hm hc hid]; simp
+    | some d => rw [resume_manifest db ident fs (by rw [hm]; simp)]; simp
+  refine ⟨hmis, ?_, resume_refuses_on_source_count_change db ident fs v hc,
     fun q hq h1 h2 h3 => resume_refuses_on_unexpected_file db ident fs v hc q hq h1 h2 h3⟩
-  intro hid
-  cases hm : fs.get .manifest with
-  | none => rw [resume_refuses_on_identity_change db ident fs v hm hc hid]; simp
-  | some d => rw [resume_manifest db ident fs (by rw [hm]; simp)]; simp
+  intro o o' hv hi hdiff
+  apply hmis
+  rw [hv, hi]
+  intro h
+  exact hdiff ((identity_binds_every_field o o').mp h)
 
 /-! ### Non-vacuity -/
 
@@ -207,7 +277,12 @@ def sampleDb : List (Graph String) :=
   [ { name := "default", nodes := [⟨5, ["A"], "{}"⟩, ⟨1, [], "{}"⟩, ⟨9, ["B"], "{}"⟩], edges := [⟨2, 1, 5, "R", "{}"⟩] },
     { name := "g2", nodes := [], edges := [] } ]
 
-def sampleIdent : Identity := { graphs := ["default", "g2"], codec := "none", batch := 2, shard := 2 }
+def sampleOpts : Opts :=
+  { driver := "pg", targets := ["default", "g2"], outputDir := "/out", force := false, resume := false, scrub := true, salt := "s1",
+    scrubConfig := "default", compression := "none", zstdLevel := 3, shardSize := 2, batchSize := 2, progressInterval := 0,
+    progressSet := false }
+
+def sampleIdent : Identity := identityOf sampleOpts
 
 example : Setting sampleDb sampleIdent := ⟨rfl, by decide, by decide⟩
 
@@ -216,5 +291,13 @@ example (k : Nat) : Reach sampleDb sampleIdent (applyOps ((dumpOps sampleDb samp
 /-- a directory with a checkpoint of another run's options is refused without touching anything -/
 example : (resume sampleDb sampleIdent [(FPath.ckpt, FData.ckpt (V0 { sampleIdent with shard := 3 }))]).outcome
     = .refused .identityChanged := by decide
+
+/-- resuming with a different salt (everything else identical) is a change of a bound field … -/
+example : ¬ SameBound sampleOpts { sampleOpts with salt := "s2" } :=
+  changed_field_not_same _ _ (Or.inr (Or.inr (Or.inr (Or.inr (Or.inr (Or.inr (Or.inr ⟨rfl, Or.inl (by decide)⟩)))))))
+
+/-- … while another output directory, progress interval or callback is not -/
+example : SameBound sampleOpts { sampleOpts with outputDir := "/elsewhere", resume := true, progressInterval := 7, progressSet := true } :=
+  ⟨rfl, rfl, rfl, rfl, rfl, rfl, rfl, fun _ => ⟨rfl, rfl⟩⟩
 
 end Dawgs.C19.Props
